@@ -450,6 +450,7 @@ func (ex *Exec) enterLoop(fr *Frame, li *loopInfo, b *ssa.BasicBlock, st *State,
 		}
 		for i, inv := range li.spec.Invariants {
 			env := ex.loopEnv(fr, st)
+			env.outer = outerOf(li)
 			g := ex.evalBool(inv, env)
 			ex.oblige(fr, fmt.Sprintf("loop%d.init", li.ord), clauseName(inv, i), pc, g, b.Instrs[0].Pos())
 		}
@@ -498,6 +499,7 @@ func (ex *Exec) enterLoop(fr *Frame, li *loopInfo, b *ssa.BasicBlock, st *State,
 	if li.spec != nil {
 		for _, inv := range li.spec.Invariants {
 			env := ex.loopEnv(fr, st)
+			env.outer = outerOf(li)
 			g := ex.evalBool(inv, env)
 			ex.sc.Assert(Implies(pc, g))
 		}
@@ -652,6 +654,7 @@ func (ex *Exec) backEdge(fr *Frame, li *loopInfo, from, header *ssa.BasicBlock, 
 	}
 	for i, inv := range li.spec.Invariants {
 		env := edgeEnv()
+		env.outer = outerOf(li)
 		g := ex.evalBool(inv, env)
 		ex.oblige(fr, fmt.Sprintf("loop%d.preserve", li.ord), clauseName(inv, i), pc, g, from.Instrs[len(from.Instrs)-1].Pos())
 	}
